@@ -197,7 +197,11 @@ var c13Anchors = map[string]wctx.ProjectType{".git": "git", "Dockerfile": "docke
 func c13FileContent(t *rapid.T, name string) []byte {
 	switch name {
 	case "package.json":
-		switch rapid.IntRange(0, 6).Draw(t, "pkg-kind") {
+		kind := rapid.IntRange(0, 9).Draw(t, "pkg-kind")
+		if kind > 6 {
+			kind = 0 // (a valid file with scripts is the common case)
+		}
+		switch kind {
 		case 6: // a big project: dozens to hundreds of scripts
 			scripts := map[string]string{}
 			n := rapid.SampledFrom([]int{12, 13, 15, 16, 17, 31, 32, 33, 40, 64, 100, 256, 300, 1000}).Draw(t, "many-scripts")
@@ -222,6 +226,17 @@ func c13FileContent(t *rapid.T, name string) []byte {
 						k += rapid.SampledFrom([]string{":", ":", "-", "_", ".", "/", " "}).Draw(t, "joint") + part.Draw(t, "part")
 					}
 					scripts[k] = "echo " + k
+				}
+			}
+			if rapid.Bool().Draw(t, "tool-commands") {
+				// script COMMANDS that run the tools the other marker files stand for (the bundler whose
+				// config file may lie next to package.json, docker, make, kubectl, ...): whatever is read
+				// out of them meets what the file listing already said
+				tool := rapid.SampledFrom([]string{"webpack", "webpack --mode production", "cross-env NODE_ENV=production webpack", "node_modules/.bin/webpack-cli", "webpack-dev-server --hot",
+					"vite", "vite build", "npx vite preview", "docker build -t x .", "docker-compose up", "kubectl apply -f k8s", "make all", "go build ./...", "tsc -p .", "jest --ci",
+					"terraform plan", "ansible-playbook site.yml", "git push", "npm run build && yarn test", "python -m pytest", "cargo build", "eslint ."})
+				for i, n := 0, rapid.IntRange(1, 4).Draw(t, "n-tool-commands"); i < n; i++ {
+					scripts[rapid.SampledFrom([]string{"build", "dev", "start", "bundle", "serve", "ci", "deploy"}).Draw(t, "tool-script")] = tool.Draw(t, "tool-command")
 				}
 			}
 			d, _ := json.Marshal(map[string]any{"name": "x", "scripts": scripts})
